@@ -518,7 +518,8 @@ def _pub(r: dict) -> dict:
 IN_INITS = ['good', 'eof-before-init', 'rst-before-init', 'silent', 'garbage', 'unknown-code', 'partial-then-eof',
             'unknown-pierce-ticket', 'good-then-immediate-eof']
 ENDINGS = ['local-1', 'local-2', 'local-3', 'remote-eof', 'remote-rst', 'read-timeout', 'write-timeout',
-           'local-and-remote', 'stop-client', 'disconnect-while-connecting']
+           'local-and-remote', 'stop-client', 'disconnect-while-connecting', 'write-timeout-queued',
+           'cancel-during-disconnect', 'cancel-during-disconnect']
 
 
 def run_c10_endings_case(res: dict, rng: random.Random, seed: Any):
@@ -540,7 +541,12 @@ def run_c10_endings_case(res: dict, rng: random.Random, seed: Any):
             'init': rng.choice(IN_INITS) if direction == 'in' else 'good',
             'ending': ending_,
             'gap': rng.choice([0.0, 0.01, 0.5]),
+            # when the task running disconnect() is cancelled: after k loop steps or d seconds
+            'cancel_after': rng.choice([['y', 0], ['y', 1], ['y', 2], ['y', 3], ['y', 5], ['t', 0.02], ['t', 0.2]]),
         })
+    # an application listener for connection state changes that suspends (listeners are public API): none,
+    # k loop steps, or a sleep
+    app_listener = rng.choice([None, None, ['y', 1], ['y', 3], ['t', 0.05]])
 
     async def main(w: World):
         from aioslsk.exceptions import ConnectionWriteError, PeerConnectionError
@@ -551,6 +557,16 @@ def run_c10_endings_case(res: dict, rng: random.Random, seed: Any):
         me = await w.add_client('me')
         me.client.settings.network.peer.connect_mode = PeerConnectMode.FALLBACK
         net = me.client.network
+        if app_listener is not None:
+            from aioslsk.events import ConnectionStateChangedEvent
+
+            async def slow_listener(event):
+                if app_listener[0] == 'y':
+                    for _ in range(app_listener[1]):
+                        await asyncio.sleep(0)
+                else:
+                    await asyncio.sleep(app_listener[1])
+            me.client.events.register(ConnectionStateChangedEvent, slow_listener)
         bobs = []
         for k, sp in enumerate(specs):
             bob = await w.add_peer(f'b{k}')
@@ -672,6 +688,26 @@ def run_c10_endings_case(res: dict, rng: random.Random, seed: Any):
                     except ConnectionWriteError:
                         pass
                     await asyncio.sleep(1.0)
+                elif ending == 'write-timeout-queued':
+                    # queued messages are written by tasks of their own; the one that times out disconnects and
+                    # thereby cancels all queued message tasks, itself included
+                    link.stop_reading()
+                    blob = bytes(8192)
+                    qtasks = [conn.queue_message((len(blob) + 4).to_bytes(4, 'little') + (999).to_bytes(4, 'little') + blob)
+                              for _ in range(60)]
+                    await asyncio.sleep(12.0)
+                    # whoever queues a message owns the task and its outcome
+                    await asyncio.gather(*qtasks, return_exceptions=True)
+                elif ending == 'cancel-during-disconnect':
+                    task = w.spawn('me', conn.disconnect(CloseReason.REQUESTED), name='vf-c10-disconnect')
+                    how, amount = sp['cancel_after']
+                    if how == 'y':
+                        for _ in range(amount):
+                            await asyncio.sleep(0)
+                    else:
+                        await asyncio.sleep(amount)
+                    task.cancel()
+                    await asyncio.gather(task, return_exceptions=True)
                 elif ending == 'local-and-remote':
                     link.close()
                     await asyncio.gather(me.call(conn.disconnect(CloseReason.REQUESTED)),
@@ -679,7 +715,7 @@ def run_c10_endings_case(res: dict, rng: random.Random, seed: Any):
                 elif ending == 'stop-client':
                     pass
             results.append((sp['direction'], sp['init'], ending, None if conn is None else conn.state.name))
-            if ending not in ('write-timeout',) and sp['init'] != 'silent':
+            if ending not in ('write-timeout', 'write-timeout-queued') and sp['init'] != 'silent':
                 await settle(0.5)
                 obs['registry_items'] += registry_check(w, me, viol, 'between-endings')
             sp['_conn'] = conn
@@ -728,7 +764,8 @@ def run_c10_endings_case(res: dict, rng: random.Random, seed: Any):
     for s in specs:
         runner.add_cover(res, 'c10_inits', f"{s['direction']}:{s['init']}")
         runner.add_cover(res, 'c10_endings', s['ending'])
-    res['sample'] = {'kind': 'endings', 'specs': [_pub2(s) for s in specs], 'result': out.result,
+    runner.add_cover(res, 'c10_app_listener', str(app_listener))
+    res['sample'] = {'kind': 'endings', 'specs': [_pub2(s) for s in specs], 'app_listener': app_listener, 'result': out.result,
                      'streams': [[s[1] for s in st] for st in list(cm.streams.values())[:8]]}
 
 
